@@ -1173,18 +1173,17 @@ func (w *W) assert(s *State, c *Term, msg string, known string) {
 		e.addFinding(Finding{Kind: "inconclusive", Msg: "solver unknown on assertion: " + msg + " " + firstLine(r.Detail), Where: site, Site: site})
 	}
 	// continue the path assuming the assertion holds
-	if v, ok := c.BoolVal(); ok {
-		if !v {
-			panic(pathEnd{"assert-false"})
-		}
+	// (if it cannot hold on this path at all, the path goes on without it so that the
+	// remaining obligations of the harness are still examined)
+	if _, ok := c.BoolVal(); ok {
 		return
 	}
-	s.pc = append(s.pc, c)
 	if r.Status != "unsat" {
-		if rr := w.solver.Check(s.pc, false, QFeas); rr.Status == "unsat" {
-			panic(pathEnd{"assert-always-false"})
+		if rr := w.solver.Check(append(append([]*Term(nil), s.pc...), c), false, QFeas); rr.Status == "unsat" {
+			return
 		}
 	}
+	s.pc = append(s.pc, c)
 }
 
 func siteOf(s *State) string {
